@@ -570,6 +570,21 @@ fn tampers(h: &Honest, ci: usize, present: &[usize], alphabet: Alphabet) -> Vec<
             add("id", format!("id:=c{j}"), x, true);
         }
     }
+    // distinguished id values: default (all-zero), all-0xff, the parent's id, every device id
+    // (incl. the author's), the graph id
+    let author_of = |c: &Wire| -> [u8; 32] { postcard::from_bytes::<VmProtocolData<'_>>(&c.data).map(|d| *d.author_id.as_array()).unwrap_or([0; 32]) };
+    let mut special: Vec<(String, [u8; 32])> = vec![("default(all-zero)".into(), [0u8; 32]), ("all-ff".into(), [0xff; 32]), ("author-device-id".into(), author_of(w)), ("graph-id".into(), h.graph)];
+    if let Prior::Single(p) = w.parent {
+        special.push(("parent-id".into(), *p.id.as_array()));
+    }
+    for (i, d) in h.dev_ids.iter().enumerate() {
+        special.push((format!("device{i}-id"), *d));
+    }
+    for (nm, v) in &special {
+        let mut x = w.clone();
+        x.id = *v;
+        add("id", format!("id:={nm}"), x, true);
+    }
     // ---- parent
     if let Prior::Single(p) = w.parent {
         let bits: Vec<usize> = if thorough { (0..256).collect() } else if coarse { vec![0, 255] } else { vec![0, 1, 7, 8, 127, 128, 248, 255] };
@@ -589,6 +604,13 @@ fn tampers(h: &Honest, ci: usize, present: &[usize], alphabet: Alphabet) -> Vec<
                 let mut x = w.clone();
                 x.parent = Prior::Single(Address { id: a.id, max_cut: p.max_cut });
                 add("parent_id", format!("parent.id:=c{j}(max_cut kept)"), x, true);
+            }
+        }
+        for (nm, v) in special.iter().chain([("own-id".to_string(), w.id)].iter()) {
+            if *v != *p.id.as_array() {
+                let mut x = w.clone();
+                x.parent = Prior::Single(Address { id: CmdId::from_bytes(*v), max_cut: p.max_cut });
+                add("parent_id", format!("parent.id:={nm}"), x, true);
             }
         }
         for (nm, mc) in [("-1", p.max_cut.get().wrapping_sub(1)), ("+1", p.max_cut.get() + 1), ("0", 0), ("big", 1 << 40)] {
@@ -671,7 +693,17 @@ fn tampers(h: &Honest, ci: usize, present: &[usize], alphabet: Alphabet) -> Vec<
         add("author", "author:=unregistered".into(), x, true);
     }
     if let Some(x) = mk(encode(&[0; 32], &kind, &payload, &sig)) {
-        add("author", "author:=default".into(), x, true);
+        add("author", "author:=default(all-zero)".into(), x, true);
+    }
+    for (nm, v) in [("all-ff".to_string(), [0xffu8; 32]), ("command-id".to_string(), w.id), ("graph-id".to_string(), h.graph)].into_iter().chain(match w.parent {
+        Prior::Single(p) => Some(("parent-id".to_string(), *p.id.as_array())),
+        _ => None,
+    }) {
+        if v != author {
+            if let Some(x) = mk(encode(&v, &kind, &payload, &sig)) {
+                add("author", format!("author:={nm}"), x, true);
+            }
+        }
     }
     for k in ["Init", "AddDevice", "SetCounter", "IncrementCounter", "GetCounter", "Nope", &kind.to_lowercase(), &format!("{kind}x")] {
         if k != kind {
@@ -1286,7 +1318,7 @@ pub fn run(args: &Args) {
     rep.set(
         "bounds",
         format!(
-            "2 registered devices + 1 observing replica; honest script of 6 commands (one fork); bases: ancestors{}; modifications: every id bit, parent id bits ({}), parent := every stored command, parent max-cut, parent kind (none/merge), priority, policy bytes, author := other/unregistered device, kind := every command name, fields/signature/envelope/data swaps between honest commands, every varint of the payload (ints, enum discriminants, string/bytes length prefixes) and every outer length prefix in its overlong forms with 1 and 2 extra continuation bytes, DESIGN 4.8 over every byte of the serialized command (7-value alphabet{}, every truncation, trailing byte, re-cuts, length fields); every refused modification followed by the honest delivery; in-flight mode for c1..c5: base = ancestors of the parent, one transaction with [honest parent, modified child] in one and in two add_commands calls, then commit or drop ({}), then the honest delivery ({} alphabet)",
+            "2 registered devices + 1 observing replica; honest script of 6 commands (one fork); bases: ancestors{}; modifications: every id bit, id / parent id / author := the distinguished values default (all-zero), all-0xff, parent id, own id, graph id, every device id (incl. the author's), command id; parent id bits ({}), parent := every stored command, parent max-cut, parent kind (none/merge), priority, policy bytes, author := other/unregistered device, kind := every command name, fields/signature/envelope/data swaps between honest commands, every varint of the payload (ints, enum discriminants, string/bytes length prefixes) and every outer length prefix in its overlong forms with 1 and 2 extra continuation bytes, DESIGN 4.8 over every byte of the serialized command (7-value alphabet{}, every truncation, trailing byte, re-cuts, length fields); every refused modification followed by the honest delivery; in-flight mode for c1..c5: base = ancestors of the parent, one transaction with [honest parent, modified child] in one and in two add_commands calls, then commit or drop ({}), then the honest delivery ({} alphabet)",
             if thorough { " and all-non-descendants for every modification" } else { " (+ all-non-descendants for id/parent/swap modifications)" },
             if thorough { "all 256" } else { "8" },
             if thorough { ", every single-bit flip" } else { "" },
